@@ -138,6 +138,8 @@ ExecLS(x, i) ==
                   IN IF i.size = 4
                      THEN IF i.t = 15 THEN (IF lo2 = 0 THEN LoadWritePC(x2, data) ELSE Unpred(x2))
                           ELSE IF ~legacyUnk THEN RsetX(x2, i.t, data)
+                          \* POP {Rt} (encoding A2 = LDR Rt,[SP],#4) has its own pseudocode without the rotation: either value
+                          ELSE IF IsARM(s.cpsr) /\ i.enc = "LDR_i_A1" /\ i.n = 13 /\ ~i.index /\ i.add /\ i.off.v = <<0, 4>> THEN unkT
                           ELSE IF IsARM(s.cpsr) THEN RsetX(x2, i.t, RORw(data, 8 * lo2))
                           ELSE unkT
                      ELSE IF legacyUnk THEN unkT ELSE RsetX(x2, i.t, data)
